@@ -134,8 +134,7 @@ func factsSession() {
 					refusal = "tombstone"
 				case j == "sesh.streams[frame.StreamID] = newStream ; sesh.streamsM.Unlock() ; sesh.streamCountIncr() ; go newStream.Close() ; return errAcceptBacklogFull":
 					refusal = "close"
-				case strings.HasPrefix(j, "sesh.streams[frame.StreamID] = nil ; select {") && strings.Contains(j, "case sesh.refusals <- frame.StreamID:") && strings.Contains(j, "default:") &&
-					strings.HasSuffix(j, "} ; sesh.streamsM.Unlock() ; sesh.refusalsOnce.Do(func() { go sesh.tellRefusals() }) ; return errAcceptBacklogFull"):
+				case refusalQueueShape(ss):
 					refusal = "queue"
 				default:
 					refusal = "?"
@@ -358,4 +357,28 @@ func factsSession() {
 	} else {
 		unrec(g, "pickMissIsError", "pickRandConn not found")
 	}
+}
+
+// refusalQueueShape: the statements of the backlog-full branch, in any order that keeps the tombstone and the non-blocking
+// enqueue inside the critical section: tombstone; select { case sesh.refusals <- id: default: }; Unlock; start the teller
+// once; return the refusal error. Nothing else.
+func refusalQueueShape(ss []string) bool {
+	iTomb, iEnq, iUnl, iOnce, iRet := -1, -1, -1, -1, -1
+	for i, t := range ss {
+		switch {
+		case t == "sesh.streams[frame.StreamID] = nil":
+			iTomb = i
+		case strings.HasPrefix(t, "select {") && strings.Contains(t, "case sesh.refusals <- frame.StreamID:") && strings.Contains(t, "default:"):
+			iEnq = i
+		case t == "sesh.streamsM.Unlock()":
+			iUnl = i
+		case strings.Contains(t, "refusalsOnce.Do(") && strings.Contains(t, "go sesh.tellRefusals()"):
+			iOnce = i
+		case t == "return errAcceptBacklogFull":
+			iRet = i
+		default:
+			return false
+		}
+	}
+	return iTomb >= 0 && iEnq >= 0 && iUnl > iTomb && iUnl > iEnq && iOnce >= 0 && iRet == len(ss)-1
 }
